@@ -76,8 +76,25 @@ func checkC11(ci interface{}, st *Stats) (err error) {
 		}
 		_ = append(arg, decoy)
 	} else {
-		for _, f := range pf {
+		// one by one, with lookups between the additions: the first byte of every file added so far
+		// resolves, the place of the file not yet added does not
+		b := 1
+		var sofar []int
+		for i, f := range pf {
+			for j, bj := range sofar {
+				if got, want := fs.Position(parsley.Pos(bj)).String(), names[j]+":1:1"; got != want {
+					return fmt.Errorf("after adding %d files, the first byte of file %d (position %d) renders as %s, want %s", i, j, bj, got, want)
+				}
+			}
+			if got := fs.Position(parsley.Pos(b)).String(); got != "unknown" {
+				return fmt.Errorf("position %d renders as %s before file %d was added", b, got, i)
+			}
 			fs.AddFile(f)
+			sofar = append(sofar, b)
+			b += len(norm[i]) + 1
+		}
+		if len(pf) > 1 {
+			st.Class("files added one by one with lookups in between")
 		}
 	}
 	base := 1
